@@ -48,6 +48,17 @@ CHECKS = {
         note="trusted base: mc/evm_ref.py; the forves adapter rendering is not yet checked",
         technique="bounded-exhaustive enumeration of block pairs (all single-point mutants) with a reference-"
                   "interpreter distinguishability oracle"),
+    "C10": dict(
+        level="fault_enumeration", engine="E1+E8", ref="DESIGN.md section 4 C10",
+        text="(a) constant-operand, chain and deep-live families x option sets through optimize+compare under a CPU "
+             "budget of 5 s (min of 3 attempts) and 1 GiB RSS growth, no escaping exception; (b) every (seam, n-th "
+             "call, exception type) of the per-block pipeline is injected into 3-block contracts driven through the "
+             "real optimize_asm_in_asm_format: the run must finish, write its output, and differ from the fault-free "
+             "output in at most one block, which must equal its input",
+        note="seams are wrapped by module-attribute rebinding in the harness process; budgets are ~1000x the normal "
+             "per-block cost; known finding: exponential specification generation on DUP-shared chains",
+        technique="exhaustive single-fault enumeration (seam x call index x exception type) plus bounded-exhaustive "
+                  "input families under resource budgets"),
 }
 
 NOT_YET = "check not built yet in this session (planned in DESIGN.md section 4); nothing is claimed for it"
